@@ -2560,3 +2560,163 @@ func ruleR264(c *Ctx) {
 		c.Missing("relay dispatch", "no type switch of the sub-process that has a CeaseFlowTrace case was found")
 	}
 }
+
+func init() {
+	register(&Rule{ID: "R265", Title: "a cycle is run by the cycle timer: where a repeating interval has been parsed, every timer goroutine launched for it is handed the whole interval (start, end, repetitions), not a due time computed from a part of it", Min: 1, Run: ruleR265})
+}
+
+func ruleR265(c *Ctx) {
+	p := c.P
+	what := "R1/<start>/PT30M fires once, one interval after its start. Armed as a plain one-shot 'one interval from now' — a shortcut for cycles with a single repetition — the start is ignored: the timer fires before the clock has even reached its start"
+	n := 0
+	for _, f := range p.Funcs {
+		if f.Body == nil || f.Pkg.PkgPath != pathTimer || f.Lit != nil {
+			continue
+		}
+		in := info(f)
+		// locals that hold a parsed repeating interval, with the block they are declared in
+		type decl struct {
+			v     types.Object
+			at    ast.Node
+			scope ast.Node
+		}
+		var decls []decl
+		add := func(o types.Object, at ast.Node) {
+			if o == nil {
+				return
+			}
+			if nt := namedOf(o.Type()); nt == nil || nt.Obj().Name() != "RepeatingInterval" {
+				return
+			}
+			for cur := p.Parent(at); cur != nil; cur = p.Parent(cur) {
+				switch cur.(type) {
+				case *ast.BlockStmt, *ast.CaseClause:
+					decls = append(decls, decl{o, at, cur})
+					return
+				}
+			}
+		}
+		inspectNoLit(f.Body, func(z ast.Node) bool {
+			switch x := z.(type) {
+			case *ast.ValueSpec:
+				for _, nm := range x.Names {
+					add(in.Defs[nm], x)
+				}
+			case *ast.AssignStmt:
+				if x.Tok == token.DEFINE {
+					for _, l := range x.Lhs {
+						if id, ok := l.(*ast.Ident); ok {
+							add(in.Defs[id], x)
+						}
+					}
+				}
+			}
+			return true
+		})
+		for _, d := range decls {
+			n++
+			var bad []string
+			launches := 0
+			inspectNoLit(d.scope, func(z ast.Node) bool {
+				gs, ok := z.(*ast.GoStmt)
+				if !ok || gs.Pos() < d.at.Pos() {
+					return true
+				}
+				launches++
+				whole := false
+				for _, a := range gs.Call.Args {
+					e := unparen(a)
+					if u, ok := e.(*ast.UnaryExpr); ok && u.Op == token.AND {
+						e = unparen(u.X)
+					}
+					if id, ok := e.(*ast.Ident); ok && objOf(in, id) == d.v {
+						whole = true
+					}
+				}
+				if !whole {
+					bad = append(bad, exprString(gs.Call.Fun)+" at "+c.pos(gs))
+				}
+				return true
+			})
+			c.Check(len(bad) == 0 && launches > 0, f, d.at, "timers launched for a repeating interval in "+f.QName(), what, ifElse(len(bad) == 0, fmt.Sprintf("%d launch(es), each handed %s", launches, d.v.Name()), "launched without the interval: "+strings.Join(bad, "; ")))
+		}
+	}
+	if n == 0 {
+		c.Missing("cycle launch", "no function of pkg/timer parses a repeating interval into a local")
+	}
+}
+
+func init() {
+	register(&Rule{ID: "R266", Title: "only the first alternative flows: in the event-based gateway's action transformer every return that is not under the successful compare-and-swap hands back completeAction", Min: 1, Run: ruleR266})
+}
+
+func ruleR266(c *Ctx) {
+	p := c.P
+	what := "the compare-and-swap is the whole decision: who loses it has lost, whatever else is true at that moment. A loser let through 'when its withdrawal channel is still empty' passes in the window between the winner's compare-and-swap and its posting the withdrawal — two events at nearly the same time, and both branches run"
+	n := 0
+	for _, f := range p.Funcs {
+		if f.Body == nil || f.Lit == nil || f.Pkg.PkgPath != pathBpmn {
+			continue
+		}
+		r := f.Root()
+		if r.Obj == nil || recvNamed(r.Obj) == nil || recvNamed(r.Obj).Obj().Name() != "eventBasedGateway" {
+			continue
+		}
+		in := info(f)
+		isCAS := func(z ast.Node) bool {
+			cl, ok := z.(*ast.CallExpr)
+			if !ok {
+				return false
+			}
+			if fn := callee(in, cl); fn != nil && strings.HasPrefix(fn.Name(), "CompareAndSwap") && fn.Pkg() != nil && fn.Pkg().Path() == "sync/atomic" {
+				return true
+			}
+			return false
+		}
+		has := false
+		inspectNoLit(f.Body, func(z ast.Node) bool {
+			if isCAS(z) {
+				has = true
+			}
+			return true
+		})
+		if !has {
+			continue
+		}
+		n++
+		var bad []string
+		inspectNoLit(f.Body, func(m ast.Node) bool {
+			rs, ok := m.(*ast.ReturnStmt)
+			if !ok || len(rs.Results) != 1 {
+				return true
+			}
+			won := false
+			for _, pc := range polarConds(p, rs) {
+				e, pos := unparen(pc.cond), pc.positive
+				for {
+					u, ok := e.(*ast.UnaryExpr)
+					if !ok || u.Op != token.NOT {
+						break
+					}
+					e, pos = unparen(u.X), !pos
+				}
+				if pos && isCAS(e) {
+					won = true
+				}
+			}
+			if won {
+				return true
+			}
+			for _, src := range resolveLocalExpr(in, f, rs.Results[0]) {
+				if !isNamed(in.TypeOf(src), pathBpmn, "completeAction") {
+					bad = append(bad, "return "+exprString(src)+" at "+c.pos(rs))
+				}
+			}
+			return true
+		})
+		c.Check(len(bad) == 0, f, f.Lit, "answers to the alternatives that lost in "+r.QName(), what, ifElse(len(bad) == 0, "every return outside the won compare-and-swap is completeAction", strings.Join(bad, "; ")))
+	}
+	if n == 0 {
+		c.Missing("first-wins decision", "no function literal of the event-based gateway decides with a compare-and-swap")
+	}
+}
